@@ -688,3 +688,28 @@ Fixpoint run (P : params) (kf : keyfun) (s : state) (ops : list op) : state * li
       let '(_, s1, e1) := step P kf s o in
       let '(s2, e2) := run P kf s1 r in (s2, e1 ++ e2)
   end.
+
+(* ------------------------------------------------------------------ governance parameters change too *)
+(* SDK MsgUpdateParams (authority-guarded, Params.ValidateBasic): the Params record is replaced as a
+   whole; nothing stored in a proposal is touched.  Every keeper function reads Params afresh, so
+   from the next operation on the new values are in force. *)
+Inductive gop :=
+| GOp (o : op)
+| GSetParams (authorized valid : bool) (P' : params).
+
+Definition gstep (kf : keyfun) (ps : params * state) (g : gop) : result * (params * state) * list event :=
+  match g with
+  | GOp o => let '(r, s', ev) := step (fst ps) kf (snd ps) o in (r, (fst ps, s'), ev)
+  | GSetParams authorized valid P' =>
+      if negb authorized then (RErr EAuth, ps, [])
+      else if negb valid then (RErr EInvalid, ps, [])
+      else (ROk, (P', snd ps), [])
+  end.
+
+Fixpoint grun (kf : keyfun) (ps : params * state) (gops : list gop) : (params * state) * list event :=
+  match gops with
+  | [] => (ps, [])
+  | g :: r =>
+      let '(_, ps1, e1) := gstep kf ps g in
+      let '(ps2, e2) := grun kf ps1 r in (ps2, e1 ++ e2)
+  end.
